@@ -270,19 +270,50 @@ func runC13(p *an.Prog, r *an.Run, tier string) {
 		bad = append(bad, "Migrate does not run inside exactly one db.Update transaction")
 	} else {
 		cl := regs[0].Closure
+		isStepCall := func(c ssa.CallInstruction) bool {
+			n, ok := c.Common().Value.Type().(*types.Named)
+			return ok && n.Obj().Name() == "MigrationStep" && c.Common().StaticCallee() == nil
+		}
+		// the transaction's code: the closure and the helpers it calls (the step loop may live in a helper)
+		inTxn := map[*ssa.Function]bool{}
+		for _, f := range regionFuncs(p, cl) {
+			inTxn[f] = true
+		}
 		var stepCalls []ssa.CallInstruction
-		for _, c := range an.Calls(cl, false) {
-			if n, ok := c.Common().Value.Type().(*types.Named); ok && n.Obj().Name() == "MigrationStep" && c.Common().StaticCallee() == nil {
-				stepCalls = append(stepCalls, c)
+		for f := range inTxn {
+			for _, c := range an.Calls(f, false) {
+				if isStepCall(c) {
+					stepCalls = append(stepCalls, c)
+				}
 			}
 		}
-		for _, c := range an.Calls(mig, false) {
-			if n, ok := c.Common().Value.Type().(*types.Named); ok && n.Obj().Name() == "MigrationStep" && c.Common().StaticCallee() == nil {
-				bad = append(bad, "a migration step is invoked outside the transaction")
+		for _, f := range badgerPkgFuncs(p) {
+			if inTxn[f] {
+				continue
+			}
+			for _, c := range an.Calls(f, false) {
+				if isStepCall(c) {
+					bad = append(bad, "a migration step is invoked outside the transaction (in "+an.FuncName(f)+")")
+				}
 			}
 		}
 		if len(stepCalls) == 0 {
 			bad = append(bad, "no migration step is invoked inside the transaction")
+		}
+		// does executing this instruction run a step or a write (directly or through a helper of the transaction)?
+		runsStepOrWrite := func(in ssa.Instruction) bool {
+			c, ok := in.(ssa.CallInstruction)
+			if !ok {
+				return false
+			}
+			if isStepCall(c) || isBadgerWriteCall(c) {
+				return true
+			}
+			if cal := c.Common().StaticCallee(); cal != nil && inTxn[cal] {
+				_, found := p.ReachesCall(cal, func(cc ssa.CallInstruction) bool { return isStepCall(cc) || isBadgerWriteCall(cc) })
+				return found
+			}
+			return false
 		}
 		// current version => nothing runs
 		foundEq := false
@@ -307,26 +338,19 @@ func runC13(p *an.Prog, r *an.Run, tier string) {
 			if rel.Op == token.NEQ {
 				eqSucc = 1
 			}
-			isStepOrWrite := func(in ssa.Instruction) bool {
-				c, ok := in.(ssa.CallInstruction)
-				if !ok {
-					return false
-				}
-				for _, sc := range stepCalls {
-					if sc.(ssa.Instruction) == in {
-						return true
-					}
-				}
-				return isBadgerWriteCall(c)
-			}
-			if in := pathFromBlock(cl, iff.Block().Succs[eqSucc], nil, isStepOrWrite); in != nil {
+			if in := pathFromBlock(cl, iff.Block().Succs[eqSucc], nil, runsStepOrWrite); in != nil {
 				bad = append(bad, "with the database already at the latest version a step or write is still reachable at "+p.Pos(in.Pos()))
 			}
 			// steps only reachable through the != edge
 			reach := an.ReachAvoiding(cl, map[an.Edge]bool{{From: iff.Block(), To: iff.Block().Succs[1-eqSucc]}: true})
-			for _, sc := range stepCalls {
-				if reach[sc.Block()] {
-					bad = append(bad, "a step is reachable without the version comparison")
+			for _, b := range cl.Blocks {
+				if !reach[b] {
+					continue
+				}
+				for _, x := range b.Instrs {
+					if runsStepOrWrite(x) {
+						bad = append(bad, "a step is reachable without the version comparison")
+					}
 				}
 			}
 		})
@@ -335,22 +359,24 @@ func runC13(p *an.Prog, r *an.Run, tier string) {
 		}
 		// the stored version must have advanced after each step
 		adv := false
-		an.AllInstrs(cl, func(in ssa.Instruction) {
-			iff, ok := in.(*ssa.If)
-			if !ok {
-				return
-			}
-			rel, ok := an.NormCond(iff.Cond)
-			if ok && rel.Kind == "int" && (rel.Op == token.LEQ || rel.Op == token.LSS || rel.Op == token.GTR || rel.Op == token.GEQ) {
-				dl, dr := p.Derives(0, rel.L), p.Derives(0, rel.R)
-				gv := func(d *an.Deriv) bool {
-					return d.CallTo(func(f *types.Func) bool { return an.IsFunc(f, pkgBadger, "getVersion") }) != nil
+		for f := range inTxn {
+			an.AllInstrs(f, func(in ssa.Instruction) {
+				iff, ok := in.(*ssa.If)
+				if !ok {
+					return
 				}
-				if gv(dl) || gv(dr) {
-					adv = true
+				rel, ok := an.NormCond(iff.Cond)
+				if ok && rel.Kind == "int" && (rel.Op == token.LEQ || rel.Op == token.LSS || rel.Op == token.GTR || rel.Op == token.GEQ) {
+					dl, dr := p.Derives(0, rel.L), p.Derives(0, rel.R)
+					gv := func(d *an.Deriv) bool {
+						return d.CallTo(func(f *types.Func) bool { return an.IsFunc(f, pkgBadger, "getVersion") }) != nil
+					}
+					if (gv(dl) || gv(dr)) && inLoop(in) {
+						adv = true
+					}
 				}
-			}
-		})
+			})
+		}
 		if !adv {
 			bad = append(bad, "Migrate does not check that a step advanced the stored version (a step that forgets to bump it would loop or be skipped silently)")
 		}
